@@ -451,3 +451,232 @@ fn c22_e8_instrumented() {
     core::mem::forget(old);
     core::mem::forget(cat);
 }
+
+
+fn spin_e(n: usize) -> usize { let mut i = 0; while i < n { i += 1; } i }
+fn spin_f(n: usize) -> usize { let mut i = 0; while i < n { i += 1; } i }
+fn spin_g(n: usize) -> usize { let mut i = 0; while i < n { i += 1; } i }
+
+#[kani::proof]
+#[kani::unwind(7)]
+#[kani::stub(<[u8]>::eq_ignore_ascii_case, eq_ic_model)]
+fn c22_e9_instrumented2() {
+    let t0: u8 = kani::any();
+    let root = mk(nm([0]), Some(Entry::NotYetLoaded(nm([0]), Class::IN, t0)));
+    let mut cat = Cat::new();
+    core::mem::forget(cat.roots_by_class.insert(Class::IN, root));
+    let name = nm([1, b'a', 0]);
+    // the steps of HashMapTreeCatalog::insert, one by one
+    let mut acc = 0;
+    {
+        let e = cat.roots_by_class.entry(Class::IN);
+        match e {
+            hash_map::Entry::Occupied(o) => {
+                acc += spin_a(1);
+                let r: &mut Node<NoZone, u8> = o.into_mut();
+                acc += spin_b(r.children.len() + 2);
+                let key = name[0].to_owned();
+                acc += spin_c(key.len() + 1);
+                let e2 = r.children.entry(key);
+                match e2 {
+                    hash_map::Entry::Occupied(_) => {
+                        acc += spin_d(5);
+                    }
+                    hash_map::Entry::Vacant(v) => {
+                        acc += spin_d(1);
+                        let n2 = v.insert(mk(nm([1, b'a', 0]), None));
+                        acc += spin_e(n2.children.len() + 2);
+                    }
+                }
+                acc += spin_f(r.children.len() + 2);
+            }
+            hash_map::Entry::Vacant(_) => {
+                acc += spin_a(5);
+            }
+        }
+    }
+    assert!(acc > 0, "[C22] e9");
+    kani::cover!(t0 == 7, "witness");
+    core::mem::forget(cat);
+    core::mem::forget(name);
+}
+
+
+struct Big { a: usize, pad: [u8; 63], v: Vec<u8>, b: usize }
+
+#[kani::proof]
+#[kani::unwind(9)]
+fn c22_e10_heap_const_probe_big() {
+    let mut outer: Vec<Big> = Vec::new();
+    outer.push(Big { a: 3, pad: [0; 63], v: Vec::new(), b: 2 });
+    let x = spin_a(outer[0].a);
+    outer[0].v.push(1);
+    outer[0].v.push(1);
+    let y = spin_b(outer[0].v.len());
+    let mut outer2: Vec<Vec<Big>> = Vec::new();
+    outer2.push(Vec::new());
+    outer2[0].push(Big { a: 4, pad: [0; 63], v: Vec::new(), b: 2 });
+    let z = spin_c(outer2[0].len() + 2);
+    let w = spin_d(outer2[0][0].a);
+    assert!(x + y + z + w > 0, "[C22] e10");
+    kani::cover!(x == 3, "witness");
+    core::mem::forget(outer);
+    core::mem::forget(outer2);
+}
+
+
+#[kani::proof]
+#[kani::unwind(7)]
+#[kani::stub(<[u8]>::eq_ignore_ascii_case, eq_ic_model)]
+fn c22_e11a() {
+    // stack-resident parent, key from array
+    let mut r = mk(nm([0]), None);
+    core::mem::forget(r.children.insert(LabelBuf::from(b"a"), mk(nm([1, b'a', 0]), None)));
+    let x = spin_a(r.children.len() + 2);
+    assert!(x > 0, "[C22] e11a");
+    kani::cover!(x == 3, "witness");
+    core::mem::forget(r);
+}
+
+#[kani::proof]
+#[kani::unwind(7)]
+#[kani::stub(<[u8]>::eq_ignore_ascii_case, eq_ic_model)]
+fn c22_e11b() {
+    // heap-resident parent (inside a Vec), key from array
+    let mut outer: Vec<Node<NoZone, u8>> = Vec::new();
+    outer.push(mk(nm([0]), None));
+    core::mem::forget(outer[0].children.insert(LabelBuf::from(b"a"), mk(nm([1, b'a', 0]), None)));
+    let x = spin_a(outer[0].children.len() + 2);
+    assert!(x > 0, "[C22] e11b");
+    kani::cover!(x == 3, "witness");
+    core::mem::forget(outer);
+}
+
+
+#[kani::proof]
+#[kani::unwind(7)]
+#[kani::stub(<[u8]>::eq_ignore_ascii_case, eq_ic_model)]
+fn c22_e12a() {
+    let mut outer: Vec<Node<NoZone, u8>> = Vec::new();
+    outer.push(mk(nm([0]), None));
+    let name = nm([1, b'a', 0]);
+    core::mem::forget(outer[0].children.insert(name[0].to_owned(), mk(nm([1, b'a', 0]), None)));
+    let x = spin_a(outer[0].children.len() + 2);
+    assert!(x > 0, "[C22] e12a");
+    kani::cover!(x == 3, "witness");
+    core::mem::forget(outer);
+    core::mem::forget(name);
+}
+
+#[kani::proof]
+#[kani::unwind(7)]
+#[kani::stub(<[u8]>::eq_ignore_ascii_case, eq_ic_model)]
+fn c22_e12b() {
+    let mut outer: Vec<Node<NoZone, u8>> = Vec::new();
+    outer.push(mk(nm([0]), None));
+    let mut acc = 0;
+    match outer[0].children.entry(LabelBuf::from(b"a")) {
+        hash_map::Entry::Occupied(_) => { acc += spin_b(5); }
+        hash_map::Entry::Vacant(v) => {
+            let n2 = v.insert(mk(nm([1, b'a', 0]), None));
+            acc += spin_c(n2.children.len() + 2);
+        }
+    }
+    let x = spin_a(outer[0].children.len() + 2);
+    assert!(x + acc > 0, "[C22] e12b");
+    kani::cover!(x == 3, "witness");
+    core::mem::forget(outer);
+}
+
+
+fn build5_root(
+    e_root: Option<Entry<NoZone, u8>>,
+    e_a: Option<Entry<NoZone, u8>>,
+    e_ba: Option<Entry<NoZone, u8>>,
+    e_xa: Option<Entry<NoZone, u8>>,
+    e_cba: Option<Entry<NoZone, u8>>,
+) -> Node<NoZone, u8> {
+    let cba = mk(nm([1, b'c', 1, b'b', 1, b'a', 0]), e_cba);
+    let mut ba = mk(nm([1, b'b', 1, b'a', 0]), e_ba);
+    core::mem::forget(ba.children.insert(LabelBuf::from(b"c"), cba));
+    let xa = mk(nm([1, b'x', 1, b'a', 0]), e_xa);
+    let mut a = mk(nm([1, b'a', 0]), e_a);
+    core::mem::forget(a.children.insert(LabelBuf::from(b"b"), ba));
+    core::mem::forget(a.children.insert(LabelBuf::from(b"x"), xa));
+    let mut root = mk(nm([0]), e_root);
+    core::mem::forget(root.children.insert(LabelBuf::from(b"a"), a));
+    root
+}
+
+fn lk<const N: usize>(root: &Node<NoZone, u8>, w: [u8; N]) -> Option<u8> {
+    let q = nm(w);
+    let r = tag_of(lookup_in_class(root, &q, q.len() - 1));
+    core::mem::forget(q);
+    r
+}
+
+#[kani::proof]
+#[kani::unwind(6)]
+#[kani::stub(<[u8]>::eq_ignore_ascii_case, eq_ic_model)]
+fn c22_e13_remove_direct() {
+    let e_root = any_entry([0]);
+    let e_a = any_entry([1, b'a', 0]);
+    let e_ba = any_entry([1, b'b', 1, b'a', 0]);
+    let e_xa = any_entry([1, b'x', 1, b'a', 0]);
+    let e_cba = any_entry([1, b'c', 1, b'b', 1, b'a', 0]);
+    let (t_root, t_a, t_ba, t_xa, t_cba) = (etag(&e_root), etag(&e_a), etag(&e_ba), etag(&e_xa), etag(&e_cba));
+    let mut root = build5_root(e_root, e_a, e_ba, e_xa, e_cba);
+    let q = nm([1, b'c', 1, b'b', 1, b'a', 0]);
+    let (removed, _prune) = remove_in_class(&mut root, &q, q.len() - 1);
+    assert!(etag(&removed) == t_cba, "[C22] remove returns the entry that was at the name");
+    let or = |a: Option<u8>, b: Option<u8>| if a.is_some() { a } else { b };
+    let w_root = t_root;
+    let w_a = or(t_a, w_root);
+    let w_ba = or(t_ba, w_a);
+    let w_xa = or(t_xa, w_a);
+    assert!(lk(&root, [0]) == w_root, "[C22] removing one entry leaves the others in place (.)");
+    assert!(lk(&root, [1, b'a', 0]) == w_a, "[C22] removing one entry leaves the others in place (a.)");
+    assert!(lk(&root, [1, b'b', 1, b'a', 0]) == w_ba, "[C22] removing one entry leaves the others in place (b.a.)");
+    assert!(lk(&root, [1, b'x', 1, b'a', 0]) == w_xa, "[C22] removing one entry leaves the others in place (x.a.)");
+    assert!(lk(&root, [1, b'c', 1, b'b', 1, b'a', 0]) == w_ba, "[C22] the removed entry is gone (c.b.a.)");
+    kani::cover!(t_cba.is_some() && t_ba.is_some() && t_a.is_none(), "witness: parent with entry");
+    core::mem::forget(removed);
+    core::mem::forget(root);
+    core::mem::forget(q);
+}
+
+
+#[kani::proof]
+#[kani::unwind(6)]
+#[kani::stub(<[u8]>::eq_ignore_ascii_case, eq_ic_model)]
+fn c22_e14_insert_direct() {
+    // tree: . -> a -> b ; insert x.a. (creates one node) 
+    let e_root = any_entry([0]);
+    let e_a = any_entry([1, b'a', 0]);
+    let e_ba = any_entry([1, b'b', 1, b'a', 0]);
+    let (t_root, t_a, t_ba) = (etag(&e_root), etag(&e_a), etag(&e_ba));
+    let ba = mk(nm([1, b'b', 1, b'a', 0]), e_ba);
+    let mut a = mk(nm([1, b'a', 0]), e_a);
+    core::mem::forget(a.children.insert(LabelBuf::from(b"b"), ba));
+    let mut root = mk(nm([0]), e_root);
+    core::mem::forget(root.children.insert(LabelBuf::from(b"a"), a));
+    let t: u8 = kani::any();
+    let entry: Entry<NoZone, u8> = Entry::NotYetLoaded(nm([1, b'x', 1, b'a', 0]), Class::IN, t);
+    // the two statements of HashMapTreeCatalog::insert after the class root has been found
+    let old = {
+        let node = root.get_or_create_descendant(entry.name(), entry.name().len() - 1);
+        node.data.replace(entry)
+    };
+    assert!(old.is_none(), "[C22] insert returns the replaced entry");
+    let or = |a: Option<u8>, b: Option<u8>| if a.is_some() { a } else { b };
+    let w_root = t_root;
+    let w_a = or(t_a, w_root);
+    let w_ba = or(t_ba, w_a);
+    assert!(lk(&root, [0]) == w_root, "[C22] inserting one entry leaves the others in place (.)");
+    assert!(lk(&root, [1, b'a', 0]) == w_a, "[C22] inserting one entry leaves the others in place (a.)");
+    assert!(lk(&root, [1, b'b', 1, b'a', 0]) == w_ba, "[C22] inserting one entry leaves the others in place (b.a.)");
+    assert!(lk(&root, [1, b'x', 1, b'a', 0]) == Some(t), "[C22] the inserted entry is found (x.a.)");
+    kani::cover!(t_a.is_some() && t_ba.is_none(), "witness");
+    core::mem::forget(old);
+    core::mem::forget(root);
+}
